@@ -262,6 +262,37 @@ def extract(repo="/repo"):
     if len(kw) < 100:
         raise TranslateError("keyword table not found (%d)" % len(kw))
     G["literals"], G["keywords"], G["level_of"] = lits, kw, level_of
+    # ---- the identifier rule's length guard and the token buffer
+    hp = open(os.path.join(repo, "src", "libparser.h")).read()
+    mm = re.search(r"constexpr\s+auto\s+MAXLEN\s*=\s*(\d+)u?\s*;", hp)
+    if not mm:
+        raise TranslateError("MAXLEN not found in libparser.h")
+    maxlen = int(mm.group(1))
+    rule = re.search(r"\n\{alpha\}\{idchr\}\*\s*\{(.*?)\n\}\n", lx, re.S)
+    if not rule:
+        raise TranslateError("identifier rule of lexer.l not found")
+    body = rule.group(1)
+    gm = re.search(r"if\s*\(\s*utap_string\.size\(\)\s*(>=|>)\s*MAXLEN\s*\)\s*\{[^{}]*utap_error\(ID_TOO_LONG\);\s*\}", body)
+    NOGUARD = 10 ** 9      # no (recognisable) guard: nothing is reported; the theorems about truncation then fail and the oracle looks for the input
+    if not gm:
+        G["ident_too_long_from"], G["ident_buf_keeps"], G["string_too_long_from"] = NOGUARD, maxlen - 1, NOGUARD
+        G["guard_note"] = "identifier rule: the length guard `if (utap_string.size() >= MAXLEN) utap_error(ID_TOO_LONG)` was not found"
+        return G
+    copies = re.findall(r"strncpy\(utap_lval\.string,\s*utap_text,\s*MAXLEN\);\s*utap_lval\.string\[MAXLEN - 1\]\s*=\s*'\\0';", body)
+    if len(copies) != 2 or body.index("ID_TOO_LONG") > body.index("strncpy(utap_lval.string"):
+        raise TranslateError("identifier rule: the token text is not copied as `strncpy(.., MAXLEN); string[MAXLEN - 1] = 0` after the guard any more")
+    srule = re.search(r'\n\\"\[\^\\"\]\+\\"\s*\{(.*?)\n\}\n', lx, re.S)
+    if not srule:
+        raise TranslateError("string-literal rule of lexer.l not found")
+    sbody = srule.group(1)
+    sg = re.search(r"if\s*\(\s*static_cast<size_t>\(utap_leng\)\s*(>=|>)\s*MAXLEN\s*\)\s*\{[^{}]*utap_error\(STRING_TOO_LONG\);\s*\}", sbody)
+    if not sg or "strncpy(utap_lval.string, utap_text, MAXLEN);" not in sbody[sg.end():] or "utap_lval.string[MAXLEN - 1] = '\\0';" not in sbody:
+        G["string_too_long_from"] = NOGUARD
+        G["guard_note"] = "string-literal rule: length guard followed by `strncpy(.., MAXLEN); string[MAXLEN - 1] = 0` not found"
+    else:
+        G["string_too_long_from"] = maxlen if sg.group(1) == ">=" else maxlen + 1   # smallest token length (quotes included) that is reported
+    G["ident_too_long_from"] = maxlen if gm.group(1) == ">=" else maxlen + 1     # smallest length that is reported
+    G["ident_buf_keeps"] = maxlen - 1                                           # characters of the text that reach the token
     return G
 
 
@@ -319,6 +350,12 @@ def emit(G):
     L.append("def keywordsNew : List (String × String) := [" + ", ".join("(%s, %s)" % (lean_str(w), lean_str(t)) for w, t, s in G["keywords"] if "NEW" in s) + "]")
     L.append("/-- productions of `Expression` that are outside the model (error recovery, dynamic and MITL expressions) -/")
     L.append("def outsideModel : List String := [" + ", ".join(lean_str(x) for x in G["ignored"]) + "]")
+    L.append("/-- the identifier rule of lexer.l: the smallest identifier length that is reported (`$Identifier_is_too_long`), and how many")
+    L.append("    characters of an identifier the token buffer keeps (`strncpy(.., MAXLEN); string[MAXLEN - 1] = 0`, MAXLEN of libparser.h) -/")
+    L.append("def identTooLongFrom : Nat := %d" % G["ident_too_long_from"])
+    L.append("def identBufKeeps : Nat := %d" % G["ident_buf_keeps"])
+    L.append("/-- the string-literal rule: the smallest token length (quotes included) that is reported (`$String_literal_is_too_long`) -/")
+    L.append("def stringTooLongFrom : Nat := %d" % G["string_too_long_from"])
     L += ["", "end UtapModel.ExprGrammar", ""]
     return "\n".join(L)
 
